@@ -7,6 +7,8 @@ mod model;
 mod ops;
 mod world;
 mod panics;
+mod plain;
+mod sched;
 mod props;
 mod runner;
 mod simnode;
